@@ -464,24 +464,54 @@ fn replay_header(cfg: &RunCfg, seq: u64, what: &str) -> Vec<String> {
     ]
 }
 
-/// one instruction, one operand tuple. Returns false when the sequence must stop (violation found).
-fn check_case(cx: &mut Ctx, seq: u64, name: &str, opcode: u8, contract: &Address, args: &[U256], literal: bool,
-              agree: &mut bool) -> bool {
-    let mut cd = vec![];
-    for a in args {
-        cd.extend_from_slice(&a.to_big_endian());
+/// number of operand tuples evaluated by one invocation of the batch contract
+const BATCH: usize = 16;
+
+/// straight-line runtime code evaluating OP on `BATCH` operand tuples taken from the call data (tuple j at
+/// 32·arity·j, word 0 of a tuple = a = top of stack); result j goes to memory word j; returns all words
+fn op_contract_batch(opcode: u8, arity: usize) -> Vec<u8> {
+    let mut c = vec![];
+    for j in 0..BATCH {
+        for i in (0..arity).rev() {
+            let off = 32 * (arity * j + i);
+            c.extend_from_slice(&[0x61, (off >> 8) as u8, off as u8, 0x35]); // PUSH2 off CALLDATALOAD
+        }
+        c.push(opcode);
+        let m = 32 * j;
+        c.extend_from_slice(&[0x61, (m >> 8) as u8, m as u8, 0x52]); // PUSH2 m MSTORE
     }
-    let out = if literal {
+    let n = 32 * BATCH;
+    c.extend_from_slice(&[0x61, (n >> 8) as u8, n as u8, 0x5f, 0xf3]); // PUSH2 n PUSH0 RETURN
+    c
+}
+
+/// real execution of one tuple on its own (calldata contract, or PUSH32 literals in a fresh contract)
+fn exec_single(cx: &mut Ctx, opcode: u8, contract: &Address, args: &[U256], literal: bool) -> RealOut {
+    if literal {
         match cx.evm.deploy(&op_contract_literal(opcode, args)) {
             Ok(c) => cx.evm.invoke(&c, &[]),
             Err(e) => RealOut { class: format!("deploy-failed: {}", e), data: vec![], panicked: false, msg: e },
         }
     } else {
+        let mut cd = vec![];
+        for a in args {
+            cd.extend_from_slice(&a.to_big_endian());
+        }
         cx.evm.invoke(contract, &cd)
-    };
+    }
+}
+
+fn eval_line(name: &str, args: &[U256]) -> String {
+    format!("eval {} {}", name, args.iter().map(hx).collect::<Vec<_>>().join(" "))
+}
+
+/// judge one instruction on one operand tuple: `out` is what the real EVM actor answered, `lean` the model
+/// driver's answer to the `eval` line. Returns false when the sequence must stop (violation found).
+fn judge_case(cx: &mut Ctx, seq: u64, name: &str, args: &[U256], literal: bool, out: &RealOut,
+              lean: Option<&String>, agree: &mut bool) -> bool {
     cx.rep.ops += 1;
     cx.rep.op(name);
-    let line = format!("eval {} {}", name, args.iter().map(hx).collect::<Vec<_>>().join(" "));
+    let line = eval_line(name, args);
     let zero = U256::ZERO;
     let want = spec(name, &args[0], args.get(1).unwrap_or(&zero), args.get(2).unwrap_or(&zero));
     let real = if out.class == "return" && out.data.len() == 32 {
@@ -510,12 +540,12 @@ fn check_case(cx: &mut Ctx, seq: u64, name: &str, opcode: u8, contract: &Address
         return false;
     }
     cx.rep.ops_ok += 1;
-    if let Some(l) = cx.lean.as_mut() {
-        let m = l.ask(&line).unwrap();
+    if let Some(m) = lean {
+        let m = m.clone();
         let parts: Vec<&str> = m.split(' ').collect();
         if parts.len() != 3 || parts[0] != "ok" {
             *agree = false;
-            cx.rep.disagreements.push(Disagreement { seq, step: cx.rep.ops, op: line.clone(), impl_out: real_s, model_out: m, replay: String::new() });
+            cx.rep.disagreements.push(Disagreement { seq, step: cx.rep.ops, op: line.clone(), impl_out: real_s, model_out: m.clone(), replay: String::new() });
             return false;
         }
         let (li, ls) = (parts[1], parts[2]);
@@ -533,7 +563,7 @@ fn check_case(cx: &mut Ctx, seq: u64, name: &str, opcode: u8, contract: &Address
         if li != real_s {
             *agree = false;
             let path = write_replay("C17", &format!("corr-{}-{}", cx.cfg.seed, seq), &hdr, &[line.clone(), format!("# real: {}", real_s)]);
-            cx.rep.disagreements.push(Disagreement { seq, step: cx.rep.ops, op: line.clone(), impl_out: real_s, model_out: m, replay: path });
+            cx.rep.disagreements.push(Disagreement { seq, step: cx.rep.ops, op: line.clone(), impl_out: real_s, model_out: m.clone(), replay: path });
             return false;
         }
     }
@@ -571,7 +601,7 @@ fn run_opcode(cx: &mut Ctx, idx: usize) {
         2 => {
             for c1 in 0..N_CLASSES {
                 for c2 in 0..N_CLASSES {
-                    for _ in 0..(2 * mult) {
+                    for _ in 0..(3 * mult) {
                         cases.push(vec![operand(&mut r, c1), operand(&mut r, c2)]);
                     }
                 }
@@ -592,7 +622,7 @@ fn run_opcode(cx: &mut Ctx, idx: usize) {
                     cases.push(vec![U256::from(k), operand(&mut r, c)]);
                 }
             }
-            for _ in 0..(300 * mult) {
+            for _ in 0..(600 * mult) {
                 cases.push(vec![rand_word(&mut r), rand_word(&mut r)]);
             }
         }
@@ -607,17 +637,49 @@ fn run_opcode(cx: &mut Ctx, idx: usize) {
                     }
                 }
             }
-            for _ in 0..(300 * mult) {
+            for _ in 0..(600 * mult) {
                 cases.push(vec![rand_word(&mut r), rand_word(&mut r), rand_word(&mut r)]);
             }
         }
     }
     let n = cases.len();
-    for (i, args) in cases.iter().enumerate() {
-        // a few cases per opcode go through PUSH32 literals in a freshly created contract
-        let literal = i % (n / 12 + 1) == 7;
-        if !check_case(cx, seq, name, opcode, &contract, args, literal, &mut agree) {
+    let batch = match cx.evm.deploy(&op_contract_batch(opcode, arity)) {
+        Ok(c) => c,
+        Err(e) => {
+            let hdr = replay_header(cx.cfg, seq, &format!("deploying the {} batch contract", name));
+            let path = write_replay("C17", &format!("{}-{}", cx.cfg.seed, seq), &hdr, &[e.clone()]);
+            cx.rep.violations.push(Violation { kind: "contract-creation-failed".into(), detail: e, replay: path });
             return;
+        }
+    };
+    for (ci, chunk) in cases.chunks(BATCH).enumerate() {
+        // one invocation evaluates the whole chunk (missing tuples of the last chunk are zeros)
+        let mut cd = vec![0u8; 32 * arity * BATCH];
+        for (j, args) in chunk.iter().enumerate() {
+            for (i, a) in args.iter().enumerate() {
+                let o = 32 * (arity * j + i);
+                cd[o..o + 32].copy_from_slice(&a.to_big_endian());
+            }
+        }
+        let bout = cx.evm.invoke(&batch, &cd);
+        let batch_ok = bout.class == "return" && bout.data.len() == 32 * BATCH;
+        let lines: Vec<String> = chunk.iter().map(|a| eval_line(name, a)).collect();
+        let answers: Option<Vec<String>> = cx.lean.as_mut().map(|l| l.ask_many(&lines).unwrap());
+        for (j, args) in chunk.iter().enumerate() {
+            // a few cases per opcode go alone: through the single-tuple contract, or as PUSH32 literals in a
+            // freshly created contract; a failed batch is re-run tuple by tuple to name the offending operands
+            let idx = ci * BATCH + j;
+            let literal = idx % (n / 12 + 1) == 7;
+            let alone = literal || !batch_ok || idx % (n / 12 + 1) == 3;
+            let out = if alone {
+                exec_single(cx, opcode, &contract, args, literal)
+            } else {
+                RealOut { class: "return".into(), data: bout.data[32 * j..32 * j + 32].to_vec(), panicked: false, msg: String::new() }
+            };
+            let ans = answers.as_ref().map(|v| &v[j]);
+            if !judge_case(cx, seq, name, args, literal, &out, ans, &mut agree) {
+                return;
+            }
         }
     }
     if agree && cx.lean.is_some() {
@@ -824,9 +886,9 @@ impl<'r> Gen<'r> {
     /// jumps whose destination comes from the call data or from a literal; valid and invalid targets
     fn frag_jump(&mut self) {
         let target = self.label();
-        let kind = self.r.below(12);
+        let kind = self.r.below(24);
         match kind {
-            0..=4 => {
+            0..=9 => {
                 // JUMP to a destination read from the call data (valid)
                 self.cd_slots.push(CdSlot::Label(target));
                 let off = 32 * (self.cd_slots.len() as u64 - 1);
@@ -835,7 +897,7 @@ impl<'r> Gen<'r> {
                 self.items.push(It::Raw(vec![0x00]));
                 self.items.push(It::Label(target));
             }
-            5 | 6 | 7 => {
+            10..=18 => {
                 // JUMPI on a call-data condition over a fragment
                 let v = if self.r.chance(1, 2) { U256::ZERO } else { self.value() };
                 self.cd_slots.push(CdSlot::Value(v));
@@ -845,21 +907,21 @@ impl<'r> Gen<'r> {
                 self.frag_arith();
                 self.items.push(It::Label(target));
             }
-            8 => {
+            19 => {
                 // JUMP into push data that holds 0x5b: must be rejected
                 let inner = self.label();
                 self.items.push(It::PushLabel(inner)); self.op(0x56);
                 self.items.push(It::InnerLabel(inner)); self.op(0x50);
                 self.items.push(It::Label(target));
             }
-            9 => {
+            20 => {
                 // JUMP to a byte that is not a JUMPDEST
                 let plain = self.label();
                 self.items.push(It::PushLabel(plain)); self.op(0x56);
                 self.items.push(It::PlainLabel(plain));
                 self.items.push(It::Label(target));
             }
-            10 => {
+            21 => {
                 // destination beyond the code / beyond u32 / huge
                 let v = match self.r.below(4) { 0 => U256::from(0xffffu64), 1 => U256::from(1u64 << 32), 2 => U256::MAX, _ => pow2(64) + U256::from(5u64) };
                 if self.r.chance(1, 2) { self.pw(&v); self.op(0x56); } else { self.pu(1); self.pw(&v); self.op(0x57); }
@@ -1061,8 +1123,9 @@ struct Program {
 fn gen_program(r: &mut Rng) -> Program {
     let mut keys = vec![U256::ZERO, U256::ONE, U256::from(2u64), U256::MAX, pow2(255)];
     keys.push(rand_word(r));
-    // the code always starts with a JUMPDEST (never 0xEF, never empty)
-    let mut g = Gen { r, items: vec![It::Op(0x5b)], labels: 0, res_off: 0, cd_slots: vec![], keys, ret_len: None, uses_hash: false };
+    // the code always starts with PC POP (never 0xEF, never empty, and offset 0 is not a jump destination:
+    // a zero read from short call data must not restart the program)
+    let mut g = Gen { r, items: vec![It::Op(0x58), It::Op(0x50)], labels: 0, res_off: 0, cd_slots: vec![], keys, ret_len: None, uses_hash: false };
     let n = 2 + g.r.below(10);
     for _ in 0..n {
         match g.r.below(20) {
@@ -1153,10 +1216,14 @@ fn run_program(cx: &mut Ctx, seq: u64, seen: &mut HashSet<u64>) {
                     let h = keccak256(&input);
                     hashes.push((input, h));
                     guard += 1;
-                    if guard > 200 { break; }
+                    if guard > 40 { break; }
                     continue;
                 }
                 break;
+            }
+            if m.starts_with("needhash") {
+                cx.rep.branch("skipped-too-many-hash-inputs");
+                continue;
             }
             if m.starts_with("err out_of_fuel") {
                 cx.rep.branch("skipped-model-out-of-fuel");
@@ -1260,7 +1327,7 @@ pub fn run(cfg: &RunCfg) -> Report {
         }
         return cx.rep;
     }
-    let nprog = if cfg.thorough() { 20000 } else { 1500 } * cfg.budget;
+    let nprog = if cfg.thorough() { 30000 } else { 2000 } * cfg.budget;
     let mut seen = HashSet::new();
     match cfg.only_seq {
         Some(k) if k < PROGRAM_SEQ_BASE => {
